@@ -40,6 +40,7 @@ const (
 	errStdCause // a real context.WithCancelCause: Err() is Canceled, Cause() is something else
 	errStdChild // a value-carrying child of a real cancellable context (cancellation arrives by propagation)
 	errStdPast  // a real context.WithDeadline whose deadline has passed (fires only before the parse)
+	errStdFutureDeadline // a real context.WithTimeout(1h), cancelled explicitly long before it expires
 	numErrKinds
 )
 
@@ -84,6 +85,8 @@ func newSimCtx(kind errKind, fireAt int) *simCtx {
 		c.std = child
 	case errStdPast:
 		c.std, c.cancel = context.WithDeadline(context.Background(), time.Unix(1, 0))
+	case errStdFutureDeadline:
+		c.std, c.cancel = context.WithTimeout(context.Background(), time.Hour)
 	default:
 		c.done = make(chan struct{})
 	}
@@ -98,7 +101,7 @@ func (c *simCtx) fire(kind byte) {
 		c.firedAt.progress = c.rec.maxEnd
 	}
 	switch c.kind {
-	case errStd, errStdChild:
+	case errStd, errStdChild, errStdFutureDeadline:
 		c.cancel()
 		c.err = context.Canceled
 	case errStdPast:
@@ -174,7 +177,17 @@ func (c *simCtx) Err() error {
 	return nil
 }
 
-func (c *simCtx) Deadline() (time.Time, bool) { return time.Time{}, false }
+func (c *simCtx) Deadline() (time.Time, bool) {
+	if c.std != nil {
+		return c.std.Deadline()
+	}
+	if c.kind == errDeadline {
+		return farFuture, true // a deadline that is still far away when the canceller fires
+	}
+	return time.Time{}, false
+}
+
+var farFuture = time.Date(2200, 1, 1, 0, 0, 0, 0, time.UTC)
 func (c *simCtx) Value(key any) any {
 	if c.std != nil {
 		return c.std.Value(key) // lets context.Cause find the underlying cancelCtx
@@ -553,7 +566,7 @@ func (engine) Run(src *sim.Src, log *sim.Log, res *sim.Result) {
 		if fireAt < 0 && fireAt != -2 {
 			fireAt = 0
 		}
-		ek := errKind(src.Pick(4, 2, 2, 3, 2, 2, 0))
+		ek := errKind(src.Pick(4, 2, 2, 3, 2, 2, 0, 2))
 		if fireAt == -2 && src.Chance(1, 4) {
 			ek = errStdPast // an expired deadline only makes sense as 'cancelled before the parse'
 		}
@@ -676,7 +689,7 @@ func (engine) Run(src *sim.Src, log *sim.Log, res *sim.Result) {
 
 		// probes + schedule fingerprint
 		if ctx.fired {
-			res.Fault("cancel:" + [...]string{"Canceled", "DeadlineExceeded", "custom-error", "std-WithCancel", "std-WithCancelCause", "std-child-of-cancelled-parent", "std-expired-deadline"}[ek])
+			res.Fault("cancel:" + [...]string{"Canceled", "DeadlineExceeded", "custom-error", "std-WithCancel", "std-WithCancelCause", "std-child-of-cancelled-parent", "std-expired-deadline", "std-timeout-1h-cancelled-early"}[ek])
 			res.Fault(fmt.Sprintf("cancel-at:%c", fk))
 			if fk == 'H' {
 				res.Probe("fired-inside-error-handler")
